@@ -170,7 +170,7 @@ int safe_file_write(SAFEFILE *file, const void *data, size_t len)
             if (errno == EINTR || errno == EAGAIN)
                 continue;
             perror(file->filename);
-            return -1;
+            return 0;
         } else if (temp == 0) {
             break;
         } else {
